@@ -24,10 +24,11 @@ unsafe def main (args : List String) : IO UInt32 := do
         if n.isInternal then continue
         match env.find? n with
         | some (.thmInfo _) =>
+          let kind := if env.isProjectionFn n then "PROJECTION" else "THEOREM"   -- fields of a Prop-valued structure
           let (axs, _) ← ((collectAxioms n : CoreM (Array Name)).toIO
             { fileName := "<audit>", fileMap := default } { env := env })
           let l := (axs.toList.map toString).mergeSort
-          IO.println s!"THEOREM {m} {n} axioms={String.intercalate "," l}"
+          IO.println s!"{kind} {m} {n} axioms={String.intercalate "," l}"
         | some (.axiomInfo _) => IO.println s!"AXIOM {m} {n}"
         | _ => pure ()
   return rc
